@@ -379,7 +379,7 @@ def gen_big(rng, tier, hints=False):
             small = size <= MAX_READ + 1
             if not thorough and dec != "p3" and not small and size != BUFFER_SIZE + 1:
                 continue                              # no size constant in the v1/v2 codecs themselves
-            shapes = (0, 1) if (thorough or dec == "p3") and size <= BUFFER_SIZE + 1 else (si % 2,)
+            shapes = (0, 1) if (dec == "p3" or (thorough and small)) and size <= BUFFER_SIZE + 1 else (si % 2,)
             for shape in shapes:
                 m = big_msg(dec, size, rng, client=(shape + si) % 2 == 0, shape=shape)
                 if size > BUFFER_SIZE + 1:
@@ -393,7 +393,7 @@ def gen_big(rng, tier, hints=False):
                         yield dict(m, kind="big_rl", pol=[rng.choice([0, 1, 65536, 40000, 7]) for _ in range(60)] + [0] * 40)
                 else:
                     yield dict(m, kind="big", tail=tail, lens=[MAX_READ] * (total // MAX_READ))
-                    if small or thorough:
+                    if small or (thorough and dec == "p3" and shape == 0):
                         yield dict(m, kind="big", tail=tail, lens=[rng.choice([1, MAX_READ - 1, 5, total // 2])
                                                                     for _ in range(4)])
                     yield dict(m, kind="big_enc")
